@@ -1,47 +1,183 @@
-(* C18 - soundness of the boolean checker of C18_Check: when [strand_ok] accepts an
+(* C18 - soundness of the boolean checkers of C18_Check: when [strand_ok] accepts an
    observed strand against the entries cut out of the file, the observed blocks are, in
    number, order, label (and chromosome) the file's, and every end is the file's end or,
    for the last block of a run with a listed chromosome, the listed end. *)
 From Coq Require Import PrimFloat.
 From HV Require Import Prelude BpText C18_Model C18_Check.
 
-Definition entry_block (chk_chrom : bool) (x : str * Z * float) (b : hb) : Prop :=
+Definition entry_block (chk_chrom : bool) (x : ent) (b : hb) : Prop :=
   h_pop b = fst (fst x) /\ (chk_chrom = true -> h_chrom b = snd (fst x)).
 
-Lemma strand_ok_sound chk ends : forall exp obs prev,
-  strand_ok chk ends prev exp obs = true -> Forall2 (entry_block chk) exp obs.
+(* ---- what [strand_ok] demands, as a proposition ----------------------------------------
+
+   the end of a block: the file's end - except, with a table of chromosome ends, for the
+   last block of a run of one chromosome, which carries the listed end of its chromosome
+   (if the chromosome comes back later in the strand, a shape outside the property's
+   quantifier, the run end may carry the file's end or the listed one) *)
+Definition end_spec (ends : option (list (Z * float))) (c : Z) (e : float) (er : list ent) (x : float) : Prop :=
+  match ends with
+  | None => feqb x e = true
+  | Some tb =>
+      if last_of_run c er
+      then forall y, assoc Z.eqb c tb = Some y ->
+             feqb x y = true \/ (recurs c er = true /\ feqb x e = true)
+      else feqb x e = true
+  end.
+
+(* one strand: as many blocks as the file has lines, in order, each with the line's label
+   (and chromosome); start rule: a block starts within [lo, lo + 0.001] where lo is the
+   previous line's recorded end if that line is on the same chromosome, else 0; end rule:
+   [end_spec] *)
+Fixpoint strand_spec (chk : bool) (ends : option (list (Z * float))) (prev : option (Z * float))
+    (exp : list ent) (obs : list hb) : Prop :=
+  match exp, obs with
+  | [], [] => True
+  | (p, c, e) :: er, b :: br =>
+      h_pop b = p /\ (chk = true -> h_chrom b = c) /\
+      (fleb (start_lo prev c) (h_start b) = true /\
+       fleb (h_start b) (PrimFloat.add (start_lo prev c) f_tol) = true) /\
+      end_spec ends c e er (h_end b) /\
+      strand_spec chk ends (Some (c, e)) er br
+  | _, _ => False
+  end.
+
+Lemma end_ok_sound ends c e er x : end_ok ends c e er x = true -> end_spec ends c e er x.
+Proof.
+  unfold end_ok, end_spec. destruct ends as [tb|]; [|auto].
+  destruct (last_of_run c er); [|auto].
+  intros H y Hy. rewrite Hy in H. apply orb_true_iff in H. destruct H as [H|H]; [left; exact H|].
+  apply andb_true_iff in H. right. exact H.
+Qed.
+
+Lemma strand_ok_spec chk ends : forall exp obs prev,
+  strand_ok chk ends prev exp obs = true -> strand_spec chk ends prev exp obs.
 Proof.
   induction exp as [|[[p c] e] er IH]; intros [|b br] prev H; cbn [strand_ok] in H; try discriminate.
-  - constructor.
-  - repeat (apply andb_true_iff in H; destruct H as [H ?]).
-    constructor.
-    + split; cbn [fst snd].
-      * symmetry. apply str_eqb_spec. assumption.
-      * intros ->. cbn [negb orb] in *. symmetry. apply Z.eqb_eq. assumption.
-    + eapply IH. eassumption.
+  - exact I.
+  - cbn [strand_spec].
+    apply andb_true_iff in H. destruct H as [H H6].
+    apply andb_true_iff in H. destruct H as [H H5].
+    apply andb_true_iff in H. destruct H as [H H4].
+    apply andb_true_iff in H. destruct H as [H H3].
+    apply andb_true_iff in H. destruct H as [H1 H2].
+    split; [symmetry; apply str_eqb_spec; exact H1|].
+    split; [intros ->; cbn [negb orb] in H2; symmetry; apply Z.eqb_eq; exact H2|].
+    split; [split; assumption|].
+    split; [apply end_ok_sound; exact H5|].
+    apply IH. exact H6.
 Qed.
+
+Lemma strand_spec_entries chk ends : forall exp obs prev,
+  strand_spec chk ends prev exp obs -> Forall2 (entry_block chk) exp obs.
+Proof.
+  induction exp as [|[[p c] e] er IH]; intros [|b br] prev H; cbn [strand_spec] in H; try contradiction.
+  - constructor.
+  - destruct H as [H1 [H2 [_ [_ H5]]]]. constructor; [split; assumption|]. eapply IH. exact H5.
+Qed.
+
+Lemma strand_spec_length chk ends : forall exp obs prev,
+  strand_spec chk ends prev exp obs -> length obs = length exp.
+Proof.
+  intros exp obs prev H. apply strand_spec_entries in H.
+  induction H; cbn [length]; [reflexivity|f_equal; assumption].
+Qed.
+
+Lemma strand_ok_sound chk ends exp obs prev :
+  strand_ok chk ends prev exp obs = true -> Forall2 (entry_block chk) exp obs.
+Proof. intros H. eapply strand_spec_entries. apply strand_ok_spec. exact H. Qed.
 
 (* no-extension case: every observed end is (float-)equal to the file's end *)
 Lemma strand_ok_ends chk : forall exp obs prev,
   strand_ok chk None prev exp obs = true ->
-  Forall2 (fun (x : str * Z * float) (b : hb) => feqb (h_end b) (snd x) = true) exp obs.
+  Forall2 (fun (x : ent) (b : hb) => feqb (h_end b) (snd x) = true) exp obs.
 Proof.
   induction exp as [|[[p c] e] er IH]; intros [|b br] prev H; cbn [strand_ok] in H; try discriminate.
   - constructor.
-  - repeat (apply andb_true_iff in H; destruct H as [H ?]).
-    constructor; [cbn [snd]; assumption|eapply IH; eassumption].
+  - apply andb_true_iff in H. destruct H as [H H6].
+    apply andb_true_iff in H. destruct H as [H H5].
+    constructor; [cbn [snd]; exact H5|eapply IH; exact H6].
 Qed.
 
+(* ---- non-overlapping: what [nonoverlap_ok] establishes ----------------------------------- *)
+
+Lemma later_ok_sound c x : forall er br j bj,
+  later_ok c x er br = true -> nth_error br j = Some bj -> (j < length er)%nat ->
+  (forall k y, (k <= j)%nat -> nth_error er k = Some y -> e_chrom y = c) ->
+  fleb x (h_start bj) = true.
+Proof.
+  induction er as [|y er IH]; intros br j bj H Hj Hlt Hc; cbn [length] in Hlt; [lia|].
+  destruct br as [|b br]; [destruct j; discriminate|].
+  cbn [later_ok] in H. rewrite (Hc 0%nat y (Nat.le_0_l _) eq_refl), Z.eqb_refl in H.
+  apply andb_true_iff in H. destruct H as [H1 H2].
+  destruct j as [|j]; cbn [nth_error] in Hj.
+  - inversion Hj; subst. exact H1.
+  - apply (IH br j bj H2 Hj); [lia|]. intros k z Hk Hz. apply (Hc (S k) z); [lia|exact Hz].
+Qed.
+
+(* the observed blocks are ordered, and a block ends where or before every later block of
+   its run starts (runs read from the chromosomes of the file's entries) *)
+Theorem nonoverlap_ok_sound : forall exp obs,
+  nonoverlap_ok exp obs = true ->
+  (forall i b, (i < length exp)%nat -> nth_error obs i = Some b -> fleb (h_start b) (h_end b) = true) /\
+  (forall i j xi bi bj, (i < j)%nat -> (j < length exp)%nat ->
+     nth_error exp i = Some xi -> nth_error obs i = Some bi -> nth_error obs j = Some bj ->
+     (forall k x, (i < k <= j)%nat -> nth_error exp k = Some x -> e_chrom x = e_chrom xi) ->
+     fleb (h_end bi) (h_start bj) = true).
+Proof.
+  induction exp as [|x er IH]; intros obs H.
+  - split; [intros i b Hi; cbn in Hi; lia|intros i j xi bi bj _ Hj; cbn in Hj; lia].
+  - destruct obs as [|b br].
+    + split; [intros [|i] b0 _ Hb; discriminate|intros [|i] j xi bi bj _ _ _ Hb; discriminate].
+    + cbn [nonoverlap_ok] in H.
+      apply andb_true_iff in H. destruct H as [H H3].
+      apply andb_true_iff in H. destruct H as [H1 H2].
+      destruct (IH br H3) as [IH1 IH2]. split.
+      * intros [|i] b0 Hi Hb; cbn [nth_error length] in *.
+        -- inversion Hb; subst. exact H1.
+        -- apply (IH1 i b0); [lia|exact Hb].
+      * intros [|i] [|j] xi bi bj Hij Hj Hxi Hbi Hbj Hc; cbn [nth_error length] in *; try lia.
+        -- inversion Hxi; subst xi. inversion Hbi; subst bi.
+           apply (later_ok_sound (e_chrom x) (h_end b) er br j bj H2 Hbj); [lia|].
+           intros k y Hk Hy. apply (Hc (S k) y); [lia|exact Hy].
+        -- apply (IH2 i j xi bi bj); try assumption; try lia.
+           intros k y Hk Hy. apply (Hc (S k) y); [lia|exact Hy].
+Qed.
+
+(* ---- the relations' checkers --------------------------------------------------------------- *)
+
+(* what [strand_holds] gives for one strand *)
+Definition strand_prop (chk : bool) (ends : option (list (Z * float))) (exp : list ent) (obs : list hb) : Prop :=
+  strand_spec chk ends None exp obs /\
+  (inc_pre ends None exp = true -> nonoverlap_ok exp obs = true).
+
+Lemma strand_holds_sound chk ends exp obs : strand_holds chk ends exp obs = true -> strand_prop chk ends exp obs.
+Proof.
+  unfold strand_holds, strand_prop. intros H. apply andb_true_iff in H. destruct H as [H1 H2].
+  split; [apply strand_ok_spec; exact H1|]. intros Hp. rewrite Hp in H2. exact H2.
+Qed.
+
+(* a present sample: the answer is Ok, has exactly two strands, and each is exactly the
+   corresponding section of the file (number, order, labels, chromosomes, starts, ends) *)
 Theorem holds_blocks_sound k e1 e2 tb :
+  holds_blocks k = true ->
+  expectation (b_tab k) (b_name k) (b_lines k) (b_cen k) = Some (Some (e1, e2, tb)) ->
+  exists o1 o2, b_obs k = Ok [o1; o2] /\ strand_prop true tb e1 o1 /\ strand_prop true tb e2 o2.
+Proof.
+  unfold holds_blocks. intros H E. rewrite E in H.
+  destruct (b_obs k) as [[|o1 [|o2 [|o3 r]]]|]; try discriminate.
+  apply andb_true_iff in H. destruct H as [H1 H2].
+  exists o1, o2. split; [reflexivity|]. split; apply strand_holds_sound; assumption.
+Qed.
+
+(* the weaker form kept from before: number, order, labels, chromosomes *)
+Theorem holds_blocks_entries k e1 e2 tb :
   holds_blocks k = true ->
   expectation (b_tab k) (b_name k) (b_lines k) (b_cen k) = Some (Some (e1, e2, tb)) ->
   exists o1 o2, b_obs k = Ok [o1; o2] /\
     Forall2 (entry_block true) e1 o1 /\ Forall2 (entry_block true) e2 o2.
 Proof.
-  unfold holds_blocks. intros H E. rewrite E in H.
-  destruct (b_obs k) as [[|o1 [|o2 [|o3 r]]]|]; try discriminate.
-  apply andb_true_iff in H. destruct H as [H1 H2].
-  exists o1, o2. split; [reflexivity|]. split; eapply strand_ok_sound; eassumption.
+  intros H E. destruct (holds_blocks_sound k e1 e2 tb H E) as [o1 [o2 [Ho [[S1 _] [S2 _]]]]].
+  exists o1, o2. split; [exact Ho|]. split; eapply strand_spec_entries; eassumption.
 Qed.
 
 Theorem holds_blocks_absent_sound k :
@@ -51,6 +187,68 @@ Theorem holds_blocks_absent_sound k :
 Proof.
   unfold holds_blocks. intros H E. rewrite E in H.
   destruct (b_obs k) as [[|o r]|]; try discriminate. reflexivity.
+Qed.
+
+(* the horizontal extent read from a drawn rectangle *)
+Lemma rect_block_spec r b :
+  rect_block r = Some b ->
+  h_pop b = fst r /\
+  exists x0 y0 x1 y1 x2 y2 x3 y3 v,
+    snd r = [(x0, y0); (x1, y1); (x2, y2); (x3, y3); v] /\
+    feqb x0 x1 = true /\ feqb x2 x3 = true /\ h_start b = x0 /\ h_end b = x2.
+Proof.
+  unfold rect_block. destruct (snd r) as [|[x0 y0] [|[x1 y1] [|[x2 y2] [|[x3 y3] [|v [|w t]]]]]] eqn:E; try discriminate.
+  destruct (feqb x0 x1 && feqb x2 x3) eqn:Eb; [|discriminate].
+  apply andb_true_iff in Eb. destruct Eb as [E1 E2].
+  intros H; inversion H; subst b. cbn [h_pop h_start h_end]. split; [reflexivity|].
+  exists x0, y0, x1, y1, x2, y2, x3, y3, v. repeat split; assumption.
+Qed.
+
+(* a present sample with something to draw: PlotKaryogram succeeds and the collections on
+   the axes are, in order, exactly one rectangle per block line of strand 0, then of strand 1,
+   with the line's label and the x-extent [strand_spec] fixes *)
+Theorem holds_plot_sound k e1 e2 tb :
+  holds_plot k = true ->
+  expectation (p_tab k) (p_name k) (p_lines k) (p_cen k) = Some (Some (e1, e2, tb)) ->
+  (e1 <> [] \/ e2 <> []) ->
+  exists rs bs, p_obs k = Ok rs /\ all_some (map rect_block rs) = Some bs /\
+    length rs = (length e1 + length e2)%nat /\
+    strand_prop false tb e1 (firstn (length e1) bs) /\
+    strand_prop false tb e2 (skipn (length e1) bs).
+Proof.
+  unfold holds_plot. intros H E Hne. rewrite E in H.
+  assert (G : match p_obs k with
+              | Ok rs => match all_some (map rect_block rs) with
+                         | Some bs => strand_holds false tb e1 (firstn (length e1) bs)
+                                      && strand_holds false tb e2 (skipn (length e1) bs)
+                         | None => false
+                         end
+              | Err _ => false
+              end = true).
+  { destruct e1 as [|x1 r1]; [destruct e2 as [|x2 r2]; [destruct Hne as [Hn|Hn]; contradiction|exact H]|exact H]. }
+  clear H. destruct (p_obs k) as [rs|]; [|discriminate].
+  destruct (all_some (map rect_block rs)) as [bs|] eqn:Ea; [|discriminate].
+  apply andb_true_iff in G. destruct G as [G1 G2].
+  apply strand_holds_sound in G1. apply strand_holds_sound in G2.
+  exists rs, bs. split; [reflexivity|]. split; [exact Ea|]. split; [|split; assumption].
+  assert (Lb : length bs = length rs).
+  { clear - Ea. revert bs Ea. induction rs as [|r rs IH]; intros bs Ea; cbn [map all_some] in Ea.
+    - inversion Ea; reflexivity.
+    - destruct (rect_block r); [|discriminate]. destruct (all_some (map rect_block rs)) as [bs'|]; [|discriminate].
+      inversion Ea; subst. cbn [length]. f_equal. apply IH. reflexivity. }
+  destruct G1 as [S1 _]. destruct G2 as [S2 _].
+  apply strand_spec_length in S1. apply strand_spec_length in S2.
+  rewrite <- Lb, <- (firstn_skipn (length e1) bs), app_length. rewrite S1, S2. reflexivity.
+Qed.
+
+(* an absent sample: PlotKaryogram reports an error (nothing is drawn) *)
+Theorem holds_plot_absent_sound k :
+  holds_plot k = true ->
+  expectation (p_tab k) (p_name k) (p_lines k) (p_cen k) = Some None ->
+  exists kind, p_obs k = Err kind.
+Proof.
+  unfold holds_plot. intros H E. rewrite E in H.
+  destruct (p_obs k) as [rs|kind]; [discriminate|]. exists kind. reflexivity.
 Qed.
 
 (* ---- the checker's declarative cut agrees with the file shape of the theorem ------------
@@ -86,6 +284,54 @@ Qed.
 
 Lemma sfx_differ name : name ++ sfx_1 <> name ++ sfx_2.
 Proof. intros H. apply app_inv_head in H. discriminate. Qed.
+
+Lemma first_hdr_skip h1 h2 pre rest :
+  Forall (fun l => l <> [h1] /\ l <> [h2]) pre -> first_hdr h1 h2 (pre ++ rest) = first_hdr h1 h2 rest.
+Proof.
+  induction 1 as [|x pre [Hx1 Hx2] Hpre IH]; cbn [app first_hdr]; [reflexivity|].
+  destruct x as [|a [|b t]]; try exact IH.
+  destruct (str_eqb a h1) eqn:E1; [apply str_eqb_spec in E1; subst; congruence|].
+  destruct (str_eqb a h2) eqn:E2; [apply str_eqb_spec in E2; subst; congruence|exact IH].
+Qed.
+
+(* either order of the two headers: the sections cut out by header are l1, l2, and
+   [first_hdr] tells which of the two headers comes first *)
+Theorem sections_of_sample_any name sa sb pre l1 l2 post :
+  strand_sfx sa -> strand_sfx sb -> sa <> sb ->
+  Forall (foreign_header name) pre -> Forall not_header l1 -> Forall not_header l2 ->
+  (post = [] \/ exists h r, post = [h] :: r) ->
+  let file := pre ++ [name ++ sa] :: l1 ++ [name ++ sb] :: l2 ++ post in
+  section_of (name ++ sa) file = Some l1 /\ section_of (name ++ sb) file = Some l2 /\
+  first_hdr (name ++ sa) (name ++ sb) file = Some true /\
+  first_hdr (name ++ sb) (name ++ sa) file = Some false.
+Proof.
+  intros Ha Hb Hab Hpre H1 H2 Hpost file. unfold file.
+  assert (Fpre : forall s, strand_sfx s -> Forall (fun l => l <> [name ++ s]) pre).
+  { intros s Hs. eapply Forall_impl; [|exact Hpre]. intros l Hf Heq.
+    destruct (Hf _ Heq) as [_ Hn]. apply Hn. apply (good_sfx_any name s Hs). }
+  assert (Hd : name ++ sa <> name ++ sb) by (intros H; apply app_inv_head in H; contradiction).
+  assert (Fboth : forall x y, strand_sfx x -> strand_sfx y -> Forall (fun l => l <> [name ++ x] /\ l <> [name ++ y]) pre).
+  { intros x y Hx Hy. pose proof (Fpre x Hx) as Px. pose proof (Fpre y Hy) as Py.
+    clear - Px Py. induction pre as [|l pre IH]; constructor.
+    - split; [inversion Px; assumption|inversion Py; assumption].
+    - apply IH; [inversion Px; assumption|inversion Py; assumption]. }
+  split; [|split; [|split]].
+  - rewrite section_of_skip by (apply Fpre; exact Ha).
+    apply section_of_here; [exact H1|]. right. eexists. eexists. reflexivity.
+  - rewrite section_of_skip by (apply Fpre; exact Hb).
+    change ([name ++ sa] :: l1 ++ [name ++ sb] :: l2 ++ post)
+      with (([name ++ sa] :: l1) ++ [name ++ sb] :: l2 ++ post).
+    rewrite section_of_skip.
+    + apply section_of_here; assumption.
+    + constructor.
+      * intros H. inversion H as [H']. apply Hd. exact H'.
+      * eapply Forall_impl; [|exact H1]. intros l Hn. apply Hn.
+  - rewrite first_hdr_skip by (apply Fboth; assumption).
+    cbn [first_hdr]. rewrite str_eqb_refl. reflexivity.
+  - rewrite first_hdr_skip by (apply Fboth; assumption).
+    cbn [first_hdr]. destruct (str_eqb (name ++ sa) (name ++ sb)) eqn:E; [apply str_eqb_spec in E; contradiction|].
+    rewrite str_eqb_refl. reflexivity.
+Qed.
 
 Theorem sections_of_sample name pre l1 l2 post :
   Forall (foreign_header name) pre -> Forall not_header l1 -> Forall not_header l2 ->
